@@ -409,4 +409,9 @@ def run(rep, db, tier, seed):
         c19_runner.run(rep, db, tier)
     except Exception as u:
         rep.add(Obligation('per-request fetch task: success is signalled only after the block was queued', 'inconclusive', f'{type(u).__name__}: {u}'[:600]))
+    try:
+        from props import c19_push
+        c19_push.run(rep, db, tier)
+    except Exception as u:
+        rep.add(Obligation('push_block_store_state handler', 'inconclusive', f'{type(u).__name__}: {u}'[:600]))
     rep.extra['explanation'] = 'sequential kernel of the fetch queue on the real MIR; interleaving freedom (lost wake-ups, double accept under real schedules) is NOT decided'
